@@ -167,4 +167,18 @@ PROPS = {
         quick=dict(checks=250, timeout=1200),
         thorough=dict(checks=500, shards=16, timeout=3000),
     ),
+    "C18": dict(
+        run="^TestC18$",
+        race=True,
+        level="exploration",
+        rule=("rapid draws 1-3 fault descriptions (operation, parameter subsets / supersets / disjoint sets, counts -1,0,1..20) and 1-64 calls (most sharing one parameter map so that they contend, "
+              "some with other parameters or another operation) spread over 1-16 goroutines released from a barrier; every configuration is run 40 (thorough: 300) times under the race detector because "
+              "the decrement race is schedule dependent; oracle (sound for every linearisation): a description fires at most its count, only on calls that match it, with distinct remaining values; a "
+              "call that was not failed implies every description matching it is exhausted; with a single description exactly min(count, matching calls) calls fail; Current() lists exactly the "
+              "unexhausted descriptions with the right remaining counts; plus sequences of different request types through the gRPC fault interceptor (parameter extraction, pooled maps) and a fault "
+              "injected into the running server hit by concurrent clients; non-trivial = >=2 goroutines and more matching calls than the description's count; distinct by hash of the configuration"),
+        assumptions=["schedules are sampled by the Go scheduler under -race (not enumerated)"],
+        quick=dict(checks=120, timeout=900),
+        thorough=dict(checks=1500, shards=8, timeout=3000),
+    ),
 }
